@@ -59,7 +59,11 @@ func main() {
 	}
 	res := vlib.New("e1:" + fl.Sub)
 	r := &runner{logDir: filepath.Join(fl.Work, "logs"), horizon: 20000, states: map[uint64]struct{}{}}
-	deadline := time.Now().Add(time.Duration(envInt("VERIF_E1_BUDGET_S", 1500)) * time.Second)
+	budget := 1500
+	if !fl.Thorough() {
+		budget = 900
+	}
+	deadline := time.Now().Add(time.Duration(envInt("VERIF_E1_BUDGET_S", budget)) * time.Second)
 
 	if fl.Replay != "" {
 		replay(fl, res, r)
@@ -252,9 +256,14 @@ func main() {
 		nontrivial := false
 		perCfgOutcomes := map[string]struct{}{}
 		perCfgKeys := map[string]struct{}{}
+		horizonHits := 0
 		cfgBad := false // a violation or a hang in this configuration: the free-running twin would only wait for its timeout
 		ex.Each(func(prefix []int) (*recChooser, bool) {
 			x, ch := r.once(j.cfg, prefix, nil)
+			if time.Now().After(deadline) {
+				res.Cap("time budget reached inside a configuration (exploration of that configuration cut short)")
+				return ch, false
+			}
 			if !ex.Mine(prefix) {
 				ex.Skipped++
 				return ch, true
@@ -272,6 +281,17 @@ func main() {
 				return ch, false
 			case vrt.Horizon:
 				res.Cap(fmt.Sprintf("horizon of %d points hit", r.horizon))
+				horizonHits++
+				if horizonHits > 200 {
+					// executions that run into the horizon are long; a configuration that keeps producing them is cut short
+					res.Cap("more than 200 executions of one configuration ran into the horizon (exploration of that configuration cut short)")
+					for _, o := range j.oracles {
+						for _, v := range o(x) {
+							report(res, fl, r, x, v)
+						}
+					}
+					return ch, false
+				}
 			case vrt.Panicked:
 				report(res, fl, r, x, verdict{sub + "/panic-in-scheduler", x.Outcome.Detail})
 			case vrt.Hang:
